@@ -75,6 +75,18 @@ def cases(tier, seed):
                 h, b = rng.choice(FAULTS)
                 p.setdefault(ln, {})[h] = b
             plans.append({'layers': p})
+        # correlated faults along a base edge: the derived layer and one of
+        # its bases both misbehave (every pair of fault kinds in thorough)
+        edges = [(ls['name'], b) for ls in spec['layers']
+                 for b in ls.get('bases', []) if b != 'UNIT']
+        if edges:
+            combos = [(fd, fb) for fd in FAULTS for fb in FAULTS]
+            if tier == 'quick':
+                combos = rng.sample(combos, 3)
+            for fd, fb in combos:
+                d, b = rng.choice(edges)
+                plans.append({'layers': {d: {fd[0]: fd[1]},
+                                         b: {fb[0]: fb[1]}}})
         for plan in plans:
             opts = {}
             r = rng.random()
